@@ -107,18 +107,20 @@ type rewriter struct {
 	on    map[string]bool
 	count map[string]int
 
-	needImport map[string]string // local name -> path
-	wrapR      map[ast.Expr]bool
-	wrapW      map[ast.Expr]bool
-	mapR       map[ast.Expr]bool // map-typed operand whose content is read
-	mapW       map[ast.Expr]bool
-	chanSend   map[*ast.SendStmt]bool
-	chanRecv   map[*ast.UnaryExpr]bool
-	chanCall   map[*ast.CallExpr]string
-	inComm     map[ast.Node]bool
-	parents    map[ast.Node]ast.Node
-	rangeIsMap map[*ast.RangeStmt]bool
-	tmpN       int
+	needImport  map[string]string // local name -> path
+	wrapR       map[ast.Expr]bool
+	wrapW       map[ast.Expr]bool
+	mapR        map[ast.Expr]bool // map-typed operand whose content is read
+	mapW        map[ast.Expr]bool
+	chanSend    map[*ast.SendStmt]bool
+	rangeIsChan map[*ast.RangeStmt]bool
+	chanRangeN  int
+	chanRecv    map[*ast.UnaryExpr]bool
+	chanCall    map[*ast.CallExpr]string
+	inComm      map[ast.Node]bool
+	parents     map[ast.Node]ast.Node
+	rangeIsMap  map[*ast.RangeStmt]bool
+	tmpN        int
 }
 
 func has(list []string, s string) bool {
@@ -321,7 +323,10 @@ func (rw *rewriter) planChans() {
 			}
 		case *ast.RangeStmt:
 			if rw.isChan(x.X) {
-				die("%s: range over a channel is not supported by the channel model", rw.pos(x))
+				if rw.rangeIsChan == nil {
+					rw.rangeIsChan = map[*ast.RangeStmt]bool{}
+				}
+				rw.rangeIsChan[x] = true // rewritten to a for loop around Recv2 in the apply pass
 			}
 		case *ast.CallExpr:
 			if id, ok := x.Fun.(*ast.Ident); ok && len(x.Args) == 1 && rw.isChan(x.Args[0]) {
@@ -671,6 +676,27 @@ func (rw *rewriter) apply() {
 			}
 			return true
 		case *ast.RangeStmt:
+			if rw.on["chans"] && rw.rangeIsChan[x] {
+				// for v := range ch { body }  ->  for { v, ok := ch.Recv2(); if !ok { break }; body }
+				rw.chanRangeN++
+				ok := ast.NewIdent(fmt.Sprintf("vchanOk%d", rw.chanRangeN))
+				var lhs ast.Expr = ast.NewIdent("_")
+				if x.Key != nil {
+					lhs = x.Key
+				}
+				recv := &ast.CallExpr{Fun: &ast.SelectorExpr{X: x.X, Sel: ast.NewIdent("Recv2")}}
+				var head []ast.Stmt
+				if x.Tok == token.ASSIGN {
+					head = append(head, &ast.DeclStmt{Decl: &ast.GenDecl{Tok: token.VAR, Specs: []ast.Spec{&ast.ValueSpec{Names: []*ast.Ident{ok}, Type: ast.NewIdent("bool")}}}},
+						&ast.AssignStmt{Lhs: []ast.Expr{lhs, ok}, Tok: token.ASSIGN, Rhs: []ast.Expr{recv}})
+				} else {
+					head = append(head, &ast.AssignStmt{Lhs: []ast.Expr{lhs, ok}, Tok: token.DEFINE, Rhs: []ast.Expr{recv}})
+				}
+				head = append(head, &ast.IfStmt{Cond: &ast.UnaryExpr{Op: token.NOT, X: ok}, Body: &ast.BlockStmt{List: []ast.Stmt{&ast.BranchStmt{Tok: token.BREAK}}}})
+				c.Replace(&ast.ForStmt{For: x.For, Body: &ast.BlockStmt{Lbrace: x.Body.Lbrace, List: append(head, x.Body.List...), Rbrace: x.Body.Rbrace}})
+				rw.count["chanrange"]++
+				return true
+			}
 			if rw.on["maprange"] && rw.rangeIsMap[x] {
 				x.X = &ast.CallExpr{Fun: sel(rw.need("vmap", "vmap"), "Range"), Args: []ast.Expr{x.X}}
 				rw.count["maprange"]++
